@@ -24,7 +24,7 @@ ASSUMPTIONS = ["after_remove is Client.close (never raises; C06) or None", "the 
 NOT_COVERED = ["exits by non-Exception BaseException (C10)", "FIFO order of the free list beyond 'first non-expired object is reused'"]
 BUDGET = {"quick": 40, "thorough": 120}
 REPLAY_UNDECIDED = True
-DEPENDS = ["C01"]      # "a connection on which a call failed is closed": the inner Client's contract (a raising exit after the exchange
+DEPENDS = ["C01", "C06"]      # "a connection on which a call failed is closed": the inner Client's contract (a raising exit after the exchange
                        # started leaves the socket closed and dropped) is C01's; it is re-proved in this run
 FILTER_BY_PROPERTY = True
 
@@ -39,4 +39,12 @@ def build(E, tier):
 
 
 def replay(ob, res):
-    return pm.pool_replay(ob, res)
+    r = pm.pool_replay(ob, res)
+    if not r.get("reproduced") and ("out-of-reach" in ob.id or "bounded-exploration" in ob.id):
+        # "closed" means Client.close really closes the socket: the connection-lifecycle replay of C06 (fault injection over a fake
+        # socket module that counts close() calls) stands in as well
+        from . import c06
+        r2 = c06.replay(ob, res)
+        if r2.get("reproduced"):
+            return r2
+    return r
